@@ -1,4 +1,5 @@
 import Driver.QuadCmd
+import Driver.QuadGenCmd
 import Driver.MeshCmd
 import Driver.FormulaCmd
 import Driver.SLCmd
@@ -24,6 +25,7 @@ def dispatch (st : St) (line : String) : St × String :=
   match args with
   | [] => (st, "")
   | "q1" :: _ | "q2" :: _ | "q3" :: _ | "slo" :: _ => (st, quadCmd args)
+  | "g1" :: _ | "g2" :: _ | "g3" :: _ | "gc" :: _ | "gnp" :: _ => (st, quadGenCmd args)
   | "fm" :: _ => (st, formulaCmd args)
   | "sl" :: _ => let r := slCmd st.sl args; ({ st with sl := r.1 }, r.2)
   | "qt" :: _ => let r := qtCmd st.qt args; ({ st with qt := r.1 }, r.2)
